@@ -1,12 +1,961 @@
-// Package c15: correspondence harness of C15 (stub: replaced when C15 is built).
+// Package c15: Curry, Uncurry, Flip, Apply, Tuple only re-plumb arguments (behavioural
+// correspondence with coq/theories/Plumb/Model.v through Eval15.v).
+//
+// For every generated signature shape the harness records
+//
+//	(wf PLUGIN SIG 0|1)            does the derived function type-check (decided per function,
+//	                                in process, on the text goderive printed; validated against the
+//	                                real `go vet`/`go build` on the well-formed set and on samples
+//	                                of the ill-formed set)
+//	(call PLUGIN SIG ARGS (ret (EVENT...) (RESULT...)))
+//	                                the call log and the results of an instrumented original
+//	                                function, called through the derived wrapper
+//
+// and the extracted model predicts both.
 package c15
 
 import (
+	"bufio"
 	"fmt"
+	"go/ast"
+	"go/parser"
+	"go/token"
+	"go/types"
+	"os"
+	"path/filepath"
+	"sort"
+	"strings"
 
 	"verifharness/internal/hx"
 )
 
+// ---------- types that can carry an argument id ----------
+
+type carrier struct {
+	sym string // symbol in the observation
+	typ string // Go type (K: per-shape unique named type, %d = shape id)
+	enc string // expression in x (int)
+	dec string // expression in v
+}
+
+var carriers = []carrier{
+	{"K", "K%d", "K%d(x)", "int(v)"},
+	{"int", "int", "x", "v"},
+	{"string", "string", "strconv.Itoa(x)", "atoi(v)"},
+	{"ptrS", "*S", "&S{A: x}", "v.A"},
+	{"S", "S", "S{A: x}", "v.A"},
+	{"slint", "[]int", "[]int{x, 7}", "v[0]"},
+	{"f64", "float64", "float64(x)", "int(v)"},
+	{"iface", "interface{}", "interface{}(x)", "v.(int)"},
+}
+
+type param struct {
+	name string
+	c    int // carrier index
+}
+
+type shape struct {
+	id       int
+	plugin   string // curry flip apply uncurry rt tuple
+	outer    []param
+	inner    []param // uncurry only
+	results  []param
+	variadic bool
+	mode     string
+}
+
+func (s *shape) goType(c int) string {
+	if carriers[c].sym == "K" {
+		return fmt.Sprintf("K%d", s.id)
+	}
+	return carriers[c].typ
+}
+func (s *shape) enc(c int, x string) string {
+	e := carriers[c].enc
+	if carriers[c].sym == "K" {
+		e = fmt.Sprintf("K%d(x)", s.id)
+	}
+	return "func(x int) " + s.goType(c) + " { return " + e + " }(" + x + ")"
+}
+func (s *shape) dec(c int, v string) string {
+	return "func(v " + s.goType(c) + ") int { return " + carriers[c].dec + " }(" + v + ")"
+}
+
+func (s *shape) paramList(ps []param, variadicLast bool) string {
+	var l []string
+	for i, p := range ps {
+		t := s.goType(p.c)
+		if variadicLast && i == len(ps)-1 {
+			t = "..." + t
+		}
+		if p.name == "" {
+			l = append(l, t)
+		} else {
+			l = append(l, p.name+" "+t)
+		}
+	}
+	return strings.Join(l, ", ")
+}
+
+func (s *shape) resultList() string {
+	if len(s.results) == 0 {
+		return ""
+	}
+	r := s.paramList(s.results, false)
+	if len(s.results) == 1 && s.results[0].name == "" {
+		return " " + r
+	}
+	return " (" + r + ")"
+}
+
+// the Go type of the original function
+func (s *shape) funcType() string {
+	switch s.plugin {
+	case "uncurry":
+		return "func(" + s.paramList(s.outer, false) + ") func(" + s.paramList(s.inner, s.variadic) + ")" + s.resultList()
+	default:
+		return "func(" + s.paramList(s.outer, s.variadic) + ")" + s.resultList()
+	}
+}
+
+func sexpParams(ps []param) string {
+	var l []string
+	for _, p := range ps {
+		if p.name == "" {
+			l = append(l, "("+carriers[p.c].sym+")")
+		} else {
+			l = append(l, "("+p.name+" "+carriers[p.c].sym+")")
+		}
+	}
+	return "(" + strings.Join(l, " ") + ")"
+}
+
+func b2i(b bool) int {
+	if b {
+		return 1
+	}
+	return 0
+}
+
+func (s *shape) sexp() string {
+	switch s.plugin {
+	case "tuple":
+		return fmt.Sprintf("(tuple %d)", len(s.outer))
+	case "uncurry":
+		return fmt.Sprintf("(csig %s %s %s %d)", sexpParams(s.outer), sexpParams(s.inner), sexpParams(s.results), b2i(s.variadic))
+	default:
+		return fmt.Sprintf("(sig %s %s %d)", sexpParams(s.outer), sexpParams(s.results), b2i(s.variadic))
+	}
+}
+
+// names of the derived functions this shape asks for
+func (s *shape) derivedNames() []string {
+	switch s.plugin {
+	case "curry":
+		return []string{fmt.Sprintf("deriveCurry%d", s.id)}
+	case "flip":
+		return []string{fmt.Sprintf("deriveFlip%d", s.id)}
+	case "apply":
+		return []string{fmt.Sprintf("deriveApply%d", s.id)}
+	case "uncurry":
+		return []string{fmt.Sprintf("deriveUncurry%d", s.id)}
+	case "rt":
+		return []string{fmt.Sprintf("deriveCurry%d", s.id), fmt.Sprintf("deriveUncurry%d", s.id)}
+	case "tuple":
+		return []string{fmt.Sprintf("deriveTuple%d", s.id)}
+	}
+	return nil
+}
+
+func (s *shape) hasK() bool {
+	for _, l := range [][]param{s.outer, s.inner, s.results} {
+		for _, p := range l {
+			if carriers[p.c].sym == "K" {
+				return true
+			}
+		}
+	}
+	return false
+}
+
+// ---------- the user file goderive sees (imports nothing) ----------
+
+func (s *shape) userDecls(b *strings.Builder) {
+	fmt.Fprintf(b, "type K%d int\n", s.id)
+	if s.plugin == "tuple" {
+		for i, p := range s.outer {
+			fmt.Fprintf(b, "var t%d_%d %s\n", s.id, i, s.goType(p.c))
+		}
+		return
+	}
+	fmt.Fprintf(b, "var f%d %s\n", s.id, s.funcType())
+	if s.plugin == "apply" {
+		fmt.Fprintf(b, "var l%d %s\n", s.id, s.goType(s.outer[len(s.outer)-1].c))
+	}
+}
+
+func (s *shape) userCall(b *strings.Builder) {
+	switch s.plugin {
+	case "curry":
+		fmt.Fprintf(b, "\tderiveCurry%d(f%d)\n", s.id, s.id)
+	case "flip":
+		fmt.Fprintf(b, "\tderiveFlip%d(f%d)\n", s.id, s.id)
+	case "apply":
+		fmt.Fprintf(b, "\tderiveApply%d(f%d, l%d)\n", s.id, s.id, s.id)
+	case "uncurry":
+		fmt.Fprintf(b, "\tderiveUncurry%d(f%d)\n", s.id, s.id)
+	case "rt":
+		fmt.Fprintf(b, "\tderiveUncurry%d(deriveCurry%d(f%d))\n", s.id, s.id, s.id)
+	case "tuple":
+		var a []string
+		for i := range s.outer {
+			a = append(a, fmt.Sprintf("t%d_%d", s.id, i))
+		}
+		fmt.Fprintf(b, "\tderiveTuple%d(%s)\n", s.id, strings.Join(a, ", "))
+	}
+}
+
+// ---------- the driver (added after generation, only for well-formed functions) ----------
+
+func idList(ids []int) string { return hx.Ints(ids) }
+
+func (s *shape) driver(b *strings.Builder, argvs [][]int) {
+	all := append(append([]param{}, s.outer...), s.inner...)
+	n := len(all)
+	nres := len(s.results)
+	if s.plugin == "tuple" {
+		nres = n
+	}
+	resVars := make([]string, nres)
+	for i := range resVars {
+		resVars[i] = fmt.Sprintf("r%d", i)
+	}
+	assign := ""
+	if nres > 0 {
+		assign = strings.Join(resVars, ", ") + " := "
+	}
+	for _, ids := range argvs {
+		fmt.Fprintf(b, "func init() {\n\tcases = append(cases, kase{%q, func(w *bufio.Writer) {\n", fmt.Sprintf("(call %s %s %s", s.plugin, s.sexp(), idList(ids)))
+		// the i-th argument the caller supplies has the type of the i-th parameter of the *derived*
+		// function: for flip that is the original list with its first two entries swapped
+		callParams := append([]param{}, all...)
+		if s.plugin == "flip" && n >= 2 {
+			callParams[0], callParams[1] = callParams[1], callParams[0]
+		}
+		args := make([]string, n)
+		for i, p := range callParams {
+			args[i] = s.enc(p.c, fmt.Sprint(ids[i]))
+		}
+		var decs []string
+		if s.plugin == "tuple" {
+			fmt.Fprintf(b, "\t\t%sderiveTuple%d(%s)()\n", assign, s.id, strings.Join(args, ", "))
+			for i, p := range s.outer {
+				decs = append(decs, s.dec(p.c, resVars[i]))
+			}
+			fmt.Fprintf(b, "\t\tfmt.Fprintf(w, \"(call tuple %s %s (ret () %%s))\\n\", ints([]int{%s}))\n", s.sexp(), idList(ids), strings.Join(decs, ", "))
+			fmt.Fprintf(b, "\t}})\n}\n\n")
+			continue
+		}
+		fmt.Fprintf(b, "\t\tvar log []string\n")
+		// the instrumented original function; its own parameter names are p0.., q0..
+		retExprs := make([]string, len(s.results))
+		for j, r := range s.results {
+			retExprs[j] = s.enc(r.c, fmt.Sprintf("%d+base", 1000*(j+1)))
+		}
+		ret := ""
+		if len(retExprs) > 0 {
+			ret = "return " + strings.Join(retExprs, ", ")
+		}
+		mk := func(prefix string, ps []param) (decl string, ids string) {
+			var d, e []string
+			for i, p := range ps {
+				d = append(d, fmt.Sprintf("%s%d %s", prefix, i, s.goType(p.c)))
+				e = append(e, s.dec(p.c, fmt.Sprintf("%s%d", prefix, i)))
+			}
+			return strings.Join(d, ", "), strings.Join(e, ", ")
+		}
+		if s.plugin == "uncurry" {
+			od, oe := mk("p", s.outer)
+			id_, ie := mk("q", s.inner)
+			fmt.Fprintf(b, "\t\tf := func(%s) func(%s)%s {\n", od, s.paramListTypesOnly(s.inner), s.resultListTypesOnly())
+			fmt.Fprintf(b, "\t\t\tids0 := []int{%s}\n\t\t\tlog = append(log, \"(0 \"+ints(ids0)+\")\")\n", oe)
+			fmt.Fprintf(b, "\t\t\treturn func(%s)%s {\n", id_, s.resultListTypesOnly())
+			fmt.Fprintf(b, "\t\t\t\tids1 := []int{%s}\n\t\t\t\tlog = append(log, \"(1 \"+ints(ids1)+\")\")\n", ie)
+			fmt.Fprintf(b, "\t\t\t\tbase := weighted(append(append([]int{}, ids0...), ids1...))\n\t\t\t\t_ = base\n\t\t\t\t%s\n\t\t\t}\n\t\t}\n", ret)
+		} else {
+			od, oe := mk("p", s.outer)
+			fmt.Fprintf(b, "\t\tf := func(%s)%s {\n", od, s.resultListTypesOnly())
+			fmt.Fprintf(b, "\t\t\tids0 := []int{%s}\n\t\t\tlog = append(log, \"(0 \"+ints(ids0)+\")\")\n", oe)
+			fmt.Fprintf(b, "\t\t\tbase := weighted(ids0)\n\t\t\t_ = base\n\t\t\t%s\n\t\t}\n", ret)
+		}
+		var call string
+		switch s.plugin {
+		case "curry":
+			call = fmt.Sprintf("deriveCurry%d(f)(%s)(%s)", s.id, args[0], strings.Join(args[1:], ", "))
+		case "flip":
+			call = fmt.Sprintf("deriveFlip%d(f)(%s)", s.id, strings.Join(args, ", "))
+		case "apply":
+			call = fmt.Sprintf("deriveApply%d(f, %s)(%s)", s.id, args[n-1], strings.Join(args[:n-1], ", "))
+		case "uncurry":
+			call = fmt.Sprintf("deriveUncurry%d(f)(%s)", s.id, strings.Join(args, ", "))
+		case "rt":
+			call = fmt.Sprintf("deriveUncurry%d(deriveCurry%d(f))(%s)", s.id, s.id, strings.Join(args, ", "))
+		}
+		fmt.Fprintf(b, "\t\t%s%s\n", assign, call)
+		for j, r := range s.results {
+			decs = append(decs, s.dec(r.c, resVars[j]))
+		}
+		obsArgs := ids // what the caller of the derived function passes, in that order
+		fmt.Fprintf(b, "\t\tfmt.Fprintf(w, \"(call %s %s %s (ret (%%s) %%s))\\n\", strings.Join(log, \" \"), ints([]int{%s}))\n",
+			s.plugin, s.sexp(), idList(obsArgs), strings.Join(decs, ", "))
+		fmt.Fprintf(b, "\t}})\n}\n\n")
+	}
+}
+
+func (s *shape) paramListTypesOnly(ps []param) string {
+	var l []string
+	for _, p := range ps {
+		l = append(l, s.goType(p.c))
+	}
+	return strings.Join(l, ", ")
+}
+
+func (s *shape) resultListTypesOnly() string {
+	if len(s.results) == 0 {
+		return ""
+	}
+	return " (" + s.paramListTypesOnly(s.results) + ")"
+}
+
+const driverHeader = `package main
+
+import (
+	"bufio"
+	"fmt"
+	"os"
+	"strconv"
+	"strings"
+)
+
+type kase struct {
+	prefix string // "(call PLUGIN SIG ARGS": completed by the result or by " panic)"
+	run    func(w *bufio.Writer)
+}
+
+var cases []kase
+
+var _ = strings.Join
+var _ = strconv.Itoa
+
+func atoi(s string) int { n, _ := strconv.Atoi(s); return n }
+
+func ints(l []int) string {
+	var b strings.Builder
+	b.WriteByte('(')
+	for i, x := range l {
+		if i > 0 {
+			b.WriteByte(' ')
+		}
+		b.WriteString(strconv.Itoa(x))
+	}
+	b.WriteByte(')')
+	return b.String()
+}
+
+func weighted(ids []int) int {
+	s := 0
+	for i, x := range ids {
+		s += (i + 1) * x
+	}
+	return s
+}
+
+func main() {
+	w := bufio.NewWriter(os.Stdout)
+	defer w.Flush()
+	for _, c := range cases {
+		func() {
+			defer func() {
+				if r := recover(); r != nil {
+					fmt.Fprintf(w, "%s panic)\n", c.prefix)
+				}
+			}()
+			c.run(w)
+		}()
+	}
+}
+`
+
+// ---------- shape generation ----------
+
+var plainNames = []string{"a", "b", "c", "d", "e", "g"}
+
+// naming modes of a flat parameter list of length n
+var flatModes = []string{"named", "blank-some", "blank-all", "unnamed", "one-f", "prefix-clash", "prefix-plain", "gen-names", "blank-f"}
+
+func nameParams(r *hx.Rand, mode string, n int) []string {
+	ns := make([]string, n)
+	for i := range ns {
+		ns[i] = plainNames[i]
+	}
+	switch mode {
+	case "named":
+	case "blank-some":
+		k := r.Intn(n)
+		ns[k] = "_"
+		for i := range ns {
+			if i != k && r.Intn(3) == 0 {
+				ns[i] = "_"
+			}
+		}
+	case "blank-all":
+		for i := range ns {
+			ns[i] = "_"
+		}
+	case "unnamed":
+		for i := range ns {
+			ns[i] = ""
+		}
+	case "one-f":
+		ns[r.Intn(n)] = "f"
+	case "prefix-clash":
+		// `_` at index k and another parameter already called param_k: only the renaming of
+		// names that start with the prefix keeps them apart
+		k := r.Intn(n)
+		j := (k + 1 + r.Intn(n-1)) % n
+		ns[k] = "_"
+		ns[j] = fmt.Sprintf("param_%d", k)
+	case "prefix-plain":
+		// a name with the generator's prefix but no blank parameter: nothing is renamed
+		ns[r.Intn(n)] = fmt.Sprintf("param_%d", r.Intn(n))
+	case "gen-names":
+		pool := []string{"v0", "v1", "innerParam_0", "first", "as", "gStr", "name", "p", "sig"}
+		hx.Shuffle(r, pool)
+		for i := range ns {
+			if r.Intn(2) == 0 {
+				ns[i] = pool[i]
+			}
+		}
+		ns[r.Intn(n)] = pool[n]
+	case "blank-f":
+		k := r.Intn(n)
+		j := (k + 1 + r.Intn(n-1)) % n
+		ns[k] = "_"
+		ns[j] = "f"
+	}
+	return ns
+}
+
+// types: "mixed" puts the unique type K at a random position among random carriers;
+// "uniform" makes every parameter K, so that any permutation of the arguments still compiles and
+// only the call log can tell
+func typeParams(r *hx.Rand, kind string, n int) []int {
+	cs := make([]int, n)
+	if kind == "uniform" {
+		return cs // all K (index 0)
+	}
+	for i := range cs {
+		cs[i] = 1 + r.Intn(len(carriers)-1)
+	}
+	cs[r.Intn(n)] = 0
+	return cs
+}
+
+func mkParams(names []string, cs []int) []param {
+	ps := make([]param, len(names))
+	for i := range ps {
+		ps[i] = param{names[i], cs[i]}
+	}
+	return ps
+}
+
+func mkResults(r *hx.Rand, n int, named string) []param {
+	rs := make([]param, n)
+	for i := range rs {
+		rs[i] = param{"", 1 + r.Intn(len(carriers)-1)}
+		switch named {
+		case "named":
+			rs[i].name = fmt.Sprintf("r%d", i)
+		case "blank":
+			rs[i].name = "_"
+		}
+	}
+	if named == "f" && n > 0 {
+		for i := range rs {
+			rs[i].name = fmt.Sprintf("r%d", i)
+		}
+		rs[r.Intn(n)].name = "f"
+	}
+	return rs
+}
+
+type uncurryMode struct {
+	name         string
+	outer, inner func(r *hx.Rand, n int) []string
+}
+
+func fixedNames(l ...string) func(*hx.Rand, int) []string {
+	return func(r *hx.Rand, n int) []string {
+		ns := make([]string, n)
+		for i := range ns {
+			if i < len(l) {
+				ns[i] = l[i]
+			} else {
+				ns[i] = plainNames[i+1]
+			}
+		}
+		return ns
+	}
+}
+
+func allOf(s string) func(*hx.Rand, int) []string {
+	return func(r *hx.Rand, n int) []string {
+		ns := make([]string, n)
+		for i := range ns {
+			ns[i] = s
+		}
+		return ns
+	}
+}
+
+var innerPlain = func(r *hx.Rand, n int) []string { return append([]string{}, plainNames[1:1+n]...) }
+
+var uncurryModes = []uncurryMode{
+	{"named", fixedNames("a"), innerPlain},
+	{"blank-both", allOf("_"), allOf("_")},
+	{"blank-outer", allOf("_"), innerPlain},
+	{"blank-inner", fixedNames("a"), allOf("_")},
+	{"blank-inner-some", fixedNames("a"), func(r *hx.Rand, n int) []string {
+		ns := innerPlain(r, n)
+		ns[r.Intn(n)] = "_"
+		return ns
+	}},
+	{"unnamed-both", allOf(""), allOf("")},
+	{"unnamed-outer", allOf(""), innerPlain},
+	{"unnamed-inner", fixedNames("a"), allOf("")},
+	{"inner-prefix-clash", fixedNames("a"), func(r *hx.Rand, n int) []string {
+		ns := innerPlain(r, n)
+		if n < 2 {
+			ns[0] = "innerParam_0" // no blank: stays
+			return ns
+		}
+		k := r.Intn(n)
+		j := (k + 1 + r.Intn(n-1)) % n
+		ns[k] = "_"
+		ns[j] = fmt.Sprintf("innerParam_%d", k)
+		return ns
+	}},
+	{"outer-f", fixedNames("f"), innerPlain},
+	{"inner-f", fixedNames("a"), func(r *hx.Rand, n int) []string {
+		ns := innerPlain(r, n)
+		ns[r.Intn(n)] = "f"
+		return ns
+	}},
+	{"dup-levels", fixedNames("a"), func(r *hx.Rand, n int) []string {
+		ns := innerPlain(r, n)
+		ns[r.Intn(n)] = "a"
+		return ns
+	}},
+	{"dup-innerParam", fixedNames("innerParam_0"), func(r *hx.Rand, n int) []string {
+		ns := innerPlain(r, n)
+		ns[0] = "_"
+		return ns
+	}},
+	{"dup-param", allOf("_"), func(r *hx.Rand, n int) []string {
+		ns := innerPlain(r, n)
+		ns[r.Intn(n)] = "param_0"
+		return ns
+	}},
+}
+
+func genShapes(r *hx.Rand, tier string) []*shape {
+	var out []*shape
+	add := func(s *shape) {
+		s.id = len(out) + 1
+		if s.plugin != "tuple" && !s.hasK() {
+			// every signature must be a distinct type for goderive: force the unique type somewhere
+			s.outer[r.Intn(len(s.outer))].c = 0
+		}
+		out = append(out, s)
+	}
+	maxN := 4
+	typeKinds := []string{"mixed", "uniform"}
+	if tier == "thorough" {
+		maxN = 5
+		typeKinds = []string{"mixed", "uniform", "mixed", "mixed", "mixed", "uniform", "mixed", "mixed"}
+	}
+	for _, plugin := range []string{"curry", "flip", "apply"} {
+		for n := 2; n <= maxN; n++ {
+			for _, mode := range flatModes {
+				for nres := 0; nres <= 3; nres++ {
+					for _, tk := range typeKinds {
+						add(&shape{plugin: plugin, mode: mode, outer: mkParams(nameParams(r, mode, n), typeParams(r, tk, n)),
+							results: mkResults(r, nres, "")})
+					}
+				}
+			}
+			// named / blank results, a result called f, variadic
+			add(&shape{plugin: plugin, mode: "results-named", outer: mkParams(nameParams(r, "named", n), typeParams(r, "mixed", n)), results: mkResults(r, 2, "named")})
+			add(&shape{plugin: plugin, mode: "results-blank", outer: mkParams(nameParams(r, "blank-some", n), typeParams(r, "mixed", n)), results: mkResults(r, 2, "blank")})
+			add(&shape{plugin: plugin, mode: "results-f", outer: mkParams(nameParams(r, "named", n), typeParams(r, "mixed", n)), results: mkResults(r, 2, "f")})
+			// variadic signatures are outside the property; flip with two parameters and apply make
+			// goderive itself crash (types.NewSignature panics: a C09 matter), so only these
+			if plugin == "curry" || (plugin == "flip" && n >= 3) {
+				add(&shape{plugin: plugin, mode: "variadic", outer: mkParams(nameParams(r, "named", n), typeParams(r, "mixed", n)), results: mkResults(r, 1, ""), variadic: true})
+			}
+		}
+	}
+	// apply also accepts a single parameter (outside the 2..5 of the property, inside the model)
+	add(&shape{plugin: "apply", mode: "named", outer: mkParams([]string{"a"}, []int{0}), results: mkResults(r, 1, "")})
+	for nin := 1; nin <= maxN-1; nin++ {
+		for _, m := range uncurryModes {
+			for nres := 0; nres <= 3; nres++ {
+				for _, tk := range typeKinds[:2] {
+					cs := typeParams(r, tk, 1+nin)
+					add(&shape{plugin: "uncurry", mode: m.name, outer: mkParams(m.outer(r, 1), cs[:1]), inner: mkParams(m.inner(r, nin), cs[1:]),
+						results: mkResults(r, nres, "")})
+				}
+			}
+		}
+		add(&shape{plugin: "uncurry", mode: "results-named", outer: mkParams([]string{"a"}, []int{0}), inner: mkParams(innerPlain(r, nin), typeParams(r, "mixed", nin)), results: mkResults(r, 2, "named")})
+	}
+	for n := 2; n <= maxN; n++ {
+		for _, mode := range []string{"named", "blank-some", "blank-all", "unnamed", "prefix-clash", "gen-names"} {
+			for nres := 0; nres <= 3; nres++ {
+				add(&shape{plugin: "rt", mode: mode, outer: mkParams(nameParams(r, mode, n), typeParams(r, typeKinds[nres%2], n)), results: mkResults(r, nres, "")})
+			}
+		}
+	}
+	for n := 1; n <= maxN+1; n++ {
+		for k := 0; k < 3; k++ {
+			cs := typeParams(r, typeKinds[k%2], n)
+			ns := make([]string, n)
+			add(&shape{plugin: "tuple", mode: "tuple", outer: mkParams(ns, cs)})
+		}
+	}
+	return out
+}
+
+// corpus line: plugin;params;inner;results;variadic   with params = name:type,... (name may be empty)
+func parseCorpus(path string) ([]*shape, error) {
+	data, err := os.ReadFile(path)
+	if err != nil {
+		return nil, err
+	}
+	sym := map[string]int{}
+	for i, c := range carriers {
+		sym[c.sym] = i
+	}
+	parseList := func(s string) ([]param, error) {
+		var ps []param
+		if strings.TrimSpace(s) == "" {
+			return nil, nil
+		}
+		for _, f := range strings.Split(s, ",") {
+			nt := strings.SplitN(strings.TrimSpace(f), ":", 2)
+			if len(nt) != 2 {
+				return nil, fmt.Errorf("bad parameter %q", f)
+			}
+			c, ok := sym[nt[1]]
+			if !ok {
+				return nil, fmt.Errorf("unknown type %q", nt[1])
+			}
+			ps = append(ps, param{nt[0], c})
+		}
+		return ps, nil
+	}
+	var out []*shape
+	for _, line := range strings.Split(string(data), "\n") {
+		if i := strings.Index(line, "#"); i >= 0 {
+			line = line[:i]
+		}
+		line = strings.TrimSpace(line)
+		if line == "" {
+			continue
+		}
+		f := strings.Split(line, ";")
+		if len(f) != 5 {
+			return nil, fmt.Errorf("%s: bad corpus line %q", path, line)
+		}
+		s := &shape{plugin: f[0], mode: "corpus", variadic: f[4] == "1"}
+		if s.outer, err = parseList(f[1]); err != nil {
+			return nil, err
+		}
+		if s.inner, err = parseList(f[2]); err != nil {
+			return nil, err
+		}
+		if s.results, err = parseList(f[3]); err != nil {
+			return nil, err
+		}
+		out = append(out, s)
+	}
+	return out, nil
+}
+
+// ---------- splitting derived.gen.go and checking one function at a time ----------
+
+func splitFuncs(src string) map[string]string {
+	out := map[string]string{}
+	lines := strings.Split(src, "\n")
+	for i := 0; i < len(lines); i++ {
+		if !strings.HasPrefix(lines[i], "func ") {
+			continue
+		}
+		name := strings.TrimPrefix(lines[i], "func ")
+		if k := strings.IndexByte(name, '('); k >= 0 {
+			name = name[:k]
+		}
+		j := i
+		for j < len(lines) && lines[j] != "}" {
+			j++
+		}
+		if j >= len(lines) {
+			j = len(lines) - 1
+		}
+		out[name] = strings.Join(lines[i:j+1], "\n") + "\n"
+		i = j
+	}
+	return out
+}
+
+// checkFunc type-checks the text of derived functions together with the declarations they need.
+func checkFunc(decls string, chunks ...string) (bool, string) {
+	src := "package main\n\n" + decls + "\n" + strings.Join(chunks, "\n")
+	fset := token.NewFileSet()
+	f, err := parser.ParseFile(fset, "derived.gen.go", src, parser.AllErrors)
+	if err != nil {
+		return false, "syntax: " + firstLine(err.Error())
+	}
+	var first string
+	conf := types.Config{Error: func(e error) {
+		if first == "" {
+			first = e.Error()
+		}
+	}}
+	conf.Check("main", fset, []*ast.File{f}, nil)
+	if first != "" {
+		return false, "types: " + firstLine(first)
+	}
+	return true, ""
+}
+
+func firstLine(s string) string {
+	if i := strings.IndexByte(s, '\n'); i >= 0 {
+		return s[:i]
+	}
+	return s
+}
+
+// ---------- Run ----------
+
 func Run(cfg hx.Config) (*hx.Meta, error) {
-	return nil, fmt.Errorf("C15: harness not built yet")
+	meta := &hx.Meta{Property: "C15", Seed: cfg.Seed, Tier: cfg.Tier}
+	r := hx.NewRand(cfg.Seed)
+
+	var shapes []*shape
+	if ents, err := os.ReadDir(cfg.Corpus); err == nil {
+		var names []string
+		for _, e := range ents {
+			if strings.HasSuffix(e.Name(), ".txt") {
+				names = append(names, e.Name())
+			}
+		}
+		sort.Strings(names)
+		for _, n := range names {
+			cs, err := parseCorpus(filepath.Join(cfg.Corpus, n))
+			if err != nil {
+				return nil, err
+			}
+			shapes = append(shapes, cs...)
+		}
+	}
+	ncorpus := len(shapes)
+	shapes = append(shapes, genShapes(r, cfg.Tier)...)
+	for i, s := range shapes {
+		s.id = i + 1
+		if s.plugin != "tuple" && !s.hasK() {
+			s.outer[0].c = 0
+		}
+	}
+	meta.Count(fmt.Sprintf("corpus-shapes=%d", ncorpus))
+
+	// ---- packages of at most perPkg shapes: one goderive run each ----
+	perPkg := 250
+	type pkg struct {
+		dir    string
+		shapes []*shape
+	}
+	var pkgs []*pkg
+	for i := 0; i < len(shapes); i += perPkg {
+		j := i + perPkg
+		if j > len(shapes) {
+			j = len(shapes)
+		}
+		pkgs = append(pkgs, &pkg{dir: filepath.Join(cfg.Work, fmt.Sprintf("c15pkg%d", len(pkgs))), shapes: shapes[i:j]})
+	}
+	meta.Packages = len(pkgs)
+
+	var obs strings.Builder
+	nargv := 2
+	if cfg.Tier == "thorough" {
+		nargv = 6
+	}
+	vetSamples := map[string]bool{}
+	for pi, p := range pkgs {
+		if err := hx.Module(p.dir); err != nil {
+			return nil, err
+		}
+		var user strings.Builder
+		user.WriteString("package main\n\ntype S struct{ A int }\n\n")
+		for _, s := range p.shapes {
+			s.userDecls(&user)
+		}
+		user.WriteString("\nfunc use() {\n")
+		for _, s := range p.shapes {
+			s.userCall(&user)
+		}
+		user.WriteString("}\n")
+		files := map[string]string{"user.go": user.String()}
+		if err := hx.WriteFiles(p.dir, files); err != nil {
+			return nil, err
+		}
+		g := hx.Goderive(cfg.Goderive, p.dir, ".")
+		meta.GoderiveRuns++
+		if g.Exit != 0 {
+			meta.AddDirect(hx.Direct{Class: "c15-generate-failed", What: "goderive failed on a package of curry/uncurry/flip/apply/tuple calls",
+				Files: files, Cmd: "goderive .", Output: hx.Truncate(g.Out, 4000)})
+			continue
+		}
+		genb, _ := os.ReadFile(filepath.Join(p.dir, "derived.gen.go"))
+		gen := string(genb)
+		if pi == 0 {
+			_ = os.WriteFile(filepath.Join(cfg.Out, "c15.derived.gen.go"), genb, 0o644)
+			_ = os.WriteFile(filepath.Join(cfg.Out, "c15.user.go"), []byte(files["user.go"]), 0o644)
+		}
+		funcs := splitFuncs(gen)
+
+		// ---- well-formedness of every derived function, one at a time ----
+		var good []*shape
+		var goodGen strings.Builder
+		goodGen.WriteString("package main\n\n")
+		for _, s := range p.shapes {
+			decls := fmt.Sprintf("type S struct{ A int }\ntype K%d int\n", s.id)
+			var chunks []string
+			missing := ""
+			for _, dn := range s.derivedNames() {
+				c, ok := funcs[dn]
+				if !ok {
+					missing = dn
+				}
+				chunks = append(chunks, c)
+			}
+			ok, why := false, ""
+			if missing != "" {
+				why = "not generated: " + missing
+			} else {
+				ok, why = checkFunc(decls, chunks...)
+			}
+			fmt.Fprintf(&obs, "(wf %s %s %d)\n", s.plugin, s.sexp(), b2i(ok))
+			meta.Count("wf/" + s.plugin + "/" + s.mode + fmt.Sprintf("/ok=%d", b2i(ok)))
+			meta.Cases++
+			if ok {
+				if s.variadic {
+					continue // outside the property (`b ...interface{}` happens to compile); no driver
+				}
+				good = append(good, s)
+				for _, c := range chunks {
+					goodGen.WriteString(c)
+					goodGen.WriteString("\n")
+				}
+			} else {
+				key := s.plugin + "/" + s.mode
+				if !vetSamples[key] {
+					vetSamples[key] = true
+					// the in-process verdict must be the toolchain's verdict: go vet on this function alone
+					d := filepath.Join(cfg.Work, fmt.Sprintf("c15ill%d", s.id))
+					if err := hx.Module(d); err != nil {
+						return nil, err
+					}
+					src := "package main\n\n" + decls + "\n" + strings.Join(chunks, "\n") + "\nfunc main() {}\n"
+					if err := hx.WriteFiles(d, map[string]string{"derived.gen.go": src}); err != nil {
+						return nil, err
+					}
+					v := hx.GoVet(d, "")
+					if v.Exit == 0 {
+						meta.AddDirect(hx.Direct{Class: "c15-checker-disagrees", What: "in-process type check rejects a derived function that go vet accepts (" + why + ")",
+							Files: map[string]string{"derived.gen.go": src}, Cmd: "go vet .", Output: hx.Truncate(v.Out, 2000)})
+					}
+					meta.Count("go-vet-confirmed-ill")
+					if len(meta.Samples) < 5 {
+						meta.Sample(fmt.Sprintf("ill-formed %s %s: %s", s.plugin, s.funcType(), why))
+					}
+				}
+			}
+		}
+
+		// ---- behaviour of the well-formed ones: real go vet + go build + run ----
+		bdir := filepath.Join(cfg.Work, fmt.Sprintf("c15run%d", pi))
+		if err := hx.Module(bdir); err != nil {
+			return nil, err
+		}
+		var decl, drv strings.Builder
+		decl.WriteString("package main\n\ntype S struct{ A int }\n\n")
+		drv.WriteString(driverHeader)
+		for _, s := range good {
+			fmt.Fprintf(&decl, "type K%d int\n", s.id)
+			n := len(s.outer) + len(s.inner)
+			var argvs [][]int
+			for k := 0; k < nargv; k++ {
+				ids := make([]int, n)
+				for i := range ids {
+					ids[i] = 1 + r.Intn(97)
+				}
+				if k == 1 {
+					// all arguments equal but one: a wrapper that duplicates an argument shows
+					for i := range ids {
+						ids[i] = ids[0]
+					}
+					ids[r.Intn(n)] = ids[0] + 1
+				}
+				argvs = append(argvs, ids)
+				meta.Cases++
+			}
+			s.driver(&drv, argvs)
+			meta.Count("call/" + s.plugin + "/" + s.mode)
+		}
+		bfiles := map[string]string{"decl.go": decl.String(), "derived.gen.go": goodGen.String(), "driver.go": drv.String()}
+		if err := hx.WriteFiles(bdir, bfiles); err != nil {
+			return nil, err
+		}
+		if v := hx.GoVet(bdir, ""); v.Exit != 0 {
+			meta.AddDirect(hx.Direct{Class: "c15-vet-failed", What: "go vet rejects derived functions that type-checked one by one",
+				Files: map[string]string{"derived.gen.go": bfiles["derived.gen.go"]}, Cmd: "go vet .", Output: hx.Truncate(v.Out, 4000)})
+			continue
+		}
+		exe := filepath.Join(bdir, "drv")
+		if b := hx.GoBuild(bdir, exe, ""); b.Exit != 0 {
+			meta.AddDirect(hx.Direct{Class: "c15-build-failed", What: "derived functions that type-checked one by one do not build with their driver",
+				Files: map[string]string{"derived.gen.go": bfiles["derived.gen.go"]}, Cmd: "go build", Output: hx.Truncate(b.Out, 4000)})
+			continue
+		}
+		res := hx.Run(bdir, 120e9, 4000000, nil, exe)
+		if res.Exit != 0 {
+			meta.AddDirect(hx.Direct{Class: "c15-driver-failed", What: "driver crashed (a derived wrapper panicked?)", Cmd: "./drv", Output: hx.Truncate(res.Out, 4000)})
+			continue
+		}
+		obs.WriteString(res.Stdout)
+		sc := bufio.NewScanner(strings.NewReader(res.Stdout))
+		for k := 0; sc.Scan() && k < 400; k++ {
+			if k%97 == 3 {
+				meta.Sample(hx.Truncate(sc.Text(), 240))
+			}
+		}
+	}
+	of := filepath.Join(cfg.Out, "c15.obs")
+	if err := os.WriteFile(of, []byte(obs.String()), 0o644); err != nil {
+		return nil, err
+	}
+	meta.ObsFiles = append(meta.ObsFiles, of)
+	meta.Count(fmt.Sprintf("shapes=%d", len(shapes)))
+	return meta, nil
 }
